@@ -157,10 +157,15 @@ def field_mutations(frame, f, thorough=False):
         if kind == "uv":
             orig = u
             vals = [0, 1, 2, orig + 1, max(orig - 1, 0), rest + 2, rest + 1, 2 ** 31, 2 ** 31 + 1, 2 ** 32, 2 ** 63, 2 ** 64 - 1, 300]
+            # values whose LOW 32 bits are small / equal to the original: a 32-bit truncation anywhere between the
+            # bounds check and the allocation must not let them through
+            vals += [2 ** 32 + k for k in range(1, 9)] + [2 ** 33 + k for k in range(0, 4)] + [2 ** 63 + k for k in range(1, 4)]
+            vals += [2 ** 32 + orig, 2 ** 32 + orig + 1, 2 ** 40 + orig, 2 ** 48 + 1]
             enc = enc_uv
         else:
             orig = (u >> 1) ^ -(u & 1)
             vals = [-1, -2, 0, orig + 1, orig - 1, rest + 1, rest, 2 ** 31 - 1, 2 ** 31, 2 ** 62, -2 ** 63, 2 ** 63 - 1, 300, -300]
+            vals += [2 ** 32 + k for k in range(0, 4)] + [2 ** 32 + orig, 2 ** 33 + 1, -2 ** 32 - 1, -2 ** 32 + orig]
             vals += _inner(frame, f)
             enc = enc_zv
         news = []
